@@ -24,6 +24,10 @@ def gen_case(rng, quick):
         del th["FONLLParts"]
     if rng.random() < 0.3:
         del th["RenScaleVar"]
+    # entries with a documented default somewhere in the code (coupling constants: MZ, SIN2TW, MW): a card may leave them out
+    for k in ("SIN2TW", "MZ", "MW"):
+        if rng.random() < 0.3:
+            th.pop(k, None)
     obs = {}
     kinds = ["F3", "g1"] if ("FFN0" in fns and proc != "CC") else (["F2", "FL", "F3"] if proc != "EM" else ["F2", "FL"])
     for _ in range(rng.randint(1, 2)):
